@@ -39,10 +39,10 @@ ASSUMPTIONS = ['file clause checked for the default clear_records_on_write=True 
                'per-agent / composite functions are pure', 'os._exit after step t stands for a crash between timesteps']
 FLOORS = {'quick': {'agent_steps': 10000, 'records_compared': 5000, 'empty_records_skipped': 500, 'unscheduled_steps': 2000,
                     'mid_step_population_changes': 2000, 'composite_none': 1000, 'composite_dict': 1000, 'history_unchanged_checks': 8000,
-                    'file_steps': 5000, 'flushes': 1500, 'conservation_checks': 5000, 'empty_collections': 800, 'opens_observed': 1500,
+                    'file_steps': 4900, 'flushes': 1500, 'conservation_checks': 4900, 'empty_collections': 800, 'opens_observed': 1500,
                     'killed_children': 20, 'default_priority_runs': 200,
-                    'reach:Collectors.AgentCollector.collect': 8000, 'reach:Collectors.FileCollector.execute': 8000,
-                    'reach:Collectors.FileCollector.write_records': 2000},
+                    'reach:Collectors.AgentCollector.collect': 6500, 'reach:Collectors.FileCollector.execute': 4100,
+                    'reach:Collectors.FileCollector.write_records': 1800},
           'thorough': {'agent_steps': 1000000, 'file_steps': 500000, 'killed_children': 1500}}
 EXHAUSTIVE = {}
 
